@@ -284,7 +284,70 @@ func c09Unconditional(w *World, r *Report, tp *tpAnchors) {
 			}
 		}
 	}
-	r.Ob(ri, w.FnName(h)+"|whole-list", h.Pos(), full && exits == 1, "the removal loop must range over the complete list without early exit")
+	// ... and removes in every iteration: from the loop body no way leads back to the loop test
+	// without passing the removal (a removal that depends on what the header contains can be dodged:
+	// an empty first value hides the values in further header lines)
+	everyIter := true
+	for _, d := range tp.delCalls {
+		db := d.Block()
+		for _, hb := range loopFn.Blocks {
+			// a loop header of the removal loop: on a cycle with the Del block, with an exit
+			if hb == db || !(reach(db, nil)[hb] && reach(hb, nil)[db]) || len(hb.Succs) != 2 {
+				continue
+			}
+			exitIdx := -1
+			for i, sx := range hb.Succs {
+				if !reach(sx, nil)[db] && sx != db {
+					exitIdx = i
+				}
+			}
+			if exitIdx < 0 {
+				continue
+			}
+			body := hb.Succs[1-exitIdx]
+			// can the header be reached again from the body entry without the removal?
+			seen := map[*ssa.BasicBlock]bool{}
+			work := []*ssa.BasicBlock{body}
+			for len(work) > 0 {
+				x := work[len(work)-1]
+				work = work[:len(work)-1]
+				if seen[x] || x == db {
+					continue
+				}
+				seen[x] = true
+				if x == hb {
+					everyIter = false
+					break
+				}
+				for si, sx := range x.Succs {
+					// skipping the removal where the header is absent altogether (no values under its
+					// key) skips nothing
+					absent := false
+					for _, f := range edgeFacts(x, si) {
+						if l, kd := lenFact(f); l != nil && kd == "empty" {
+							if vc, _ := resultOfCall(l); vc != nil && callName(vc.Common()) == "net/http.Header.Values" {
+								absent = true
+							}
+							if _, isLookup := stripConv(l).(*ssa.Lookup); isLookup {
+								absent = true
+							}
+						}
+						if f.Kind == FFalse {
+							if ex, isEx := f.V.(*ssa.Extract); isEx && ex.Index == 1 {
+								if lk, isLk := ex.Tuple.(*ssa.Lookup); isLk && lk.CommaOk {
+									absent = true
+								}
+							}
+						}
+					}
+					if !absent {
+						work = append(work, sx)
+					}
+				}
+			}
+		}
+	}
+	r.Ob(ri, w.FnName(h)+"|whole-list", h.Pos(), full && exits == 1 && everyIter, "the removal loop must range over the complete list without early exit and remove the header in every iteration")
 	// next.ServeHTTP is reached on both edges with the handler's own request
 	next := findCalls(h, named("net/http.Handler.ServeHTTP"))
 	okN := len(next) == 1
